@@ -3,6 +3,7 @@ package buildsim
 import (
 	"fmt"
 	"os"
+	"regexp"
 	"path/filepath"
 	"strings"
 	"testing"
@@ -171,7 +172,7 @@ func runC38(t *testing.T, tp *simrt.Tape, keepTrace bool) hx.Result {
 			completed := withProc(p, func() { c38Build(b.opts(dir), docs) })
 			if !completed {
 				res.Faults["kill"]++
-				killed = fmt.Sprintf("build with the new options killed before op %d (%s %s)", k.K, k.Name, filepath.Base(k.Path))
+				killed = fmt.Sprintf("build with the new options killed before op %d (%s %s)", k.K, k.Name, c38TmpRe.ReplaceAllString(filepath.Base(k.Path), ".*.tmp"))
 				// did the dying build already install its first shard (the one IndexState reads)?
 				for _, o := range simos.StateOf(p).Log {
 					if o.Mut && o.Name == "rename" && o.K < k.K && strings.HasSuffix(filepath.Base(o.Path), ".00000.zoekt") {
@@ -223,6 +224,9 @@ func runC38(t *testing.T, tp *simrt.Tape, keepTrace bool) hx.Result {
 	res.Hash = hash64(a.String(), b.String(), killed)
 	return res
 }
+
+// temp file names carry a random number
+var c38TmpRe = regexp.MustCompile(`\.\d+\.tmp$`)
 
 func briefDocs(docs []string) []string {
 	var out []string
